@@ -11,6 +11,10 @@ from . import common, gradcase, viewprog as vp
 PROP = "C04"
 
 
+CONST_VIEWS = ["{d} = mg.reshape({s}, (3, 2), constant={c})", "{d} = mg.reshape({s}, (6,), constant={c})", "{d} = mg.transpose({s}, constant={c})",
+               "{d} = mg.swapaxes({s}, 0, -1, constant={c})", "{d} = mg.expand_dims({s}, 0, constant={c})"]
+
+
 def cases(tier):
     quick = tier == "quick"
     out = []
@@ -46,16 +50,40 @@ def cases(tier):
         size = 60
         for i in range(0, len(progs), size):
             out.append({"name": "%s/%d" % (base, i), "base": base, "progs": progs[i:i + size]})
+    # constant-flag family: constant / non-constant base, a view created with an explicit constant= (either way), an
+    # ordinary view of the base or of that view, then one in-place statement on any member of the family
+    for base in ("flat6", "mat23"):
+        shape = vp.BASES[base]
+        for cb in (True, False):
+            progs = []
+            for tpl1 in CONST_VIEWS:
+                for c in (True, False):
+                    l1 = tpl1.format(d="v", s="t", c=c)
+                    for l2 in ("w = t[1:]", "w = v[::-1]", "w = v[0]", "w = mg.reshape(v, (6,), constant=%s)" % (not c), None):
+                        pre = [l1] + ([l2] if l2 else [])
+                        if not vp.well_typed(pre, shape):
+                            continue
+                        names = ["t", "v"] + (["w"] if l2 else [])
+                        for tpl in (vp.INPLACE_Q if quick else vp.INPLACE):
+                            for tgt in names:
+                                o = [n for n in names if n != tgt][0]
+                                l3 = tpl.format(t=tgt, o=o)
+                                if vp.well_typed(pre + [l3], shape):
+                                    progs.append(pre + [l3])
+            if quick:
+                progs = progs[::2] if not cb else progs
+            for i in range(0, len(progs), 80):
+                out.append({"name": "%s/constflags-%s/%d" % (base, "constbase" if cb else "varbase", i), "base": base, "const_base": cb, "progs": progs[i:i + 80]})
     return out
 
 
-def run_program(mg, base, lines, res, check_each=True):
+def run_program(mg, base, lines, res, check_each=True, const_base=False):
     engine = eng_mod.Engine(skip_ties=True)
     engine.reset_fn = lib.reset_state
     shape = vp.BASES[base]
 
     def body():
-        S = vp.Setup(shape, mg, f_ordered=base in vp.F_ORDERED)
+        S = vp.Setup(shape, mg, f_ordered=base in vp.F_ORDERED, const_base=const_base)
         envT, envA = S.env_mg(), S.env_np()
         ids = {"t": id(envT["t"])}
         consts = {"t": envT["t"].constant}
@@ -86,9 +114,9 @@ def run_program(mg, base, lines, res, check_each=True):
     return None
 
 
-def replay_source(base, lines):
+def replay_source(base, lines, const_base=False):
     shape = tuple(vp.BASES[base])
-    return '''import sys
+    return '''import sys, re
 import numpy as np
 import mygrad as mg
 def mask_for(shape):
@@ -99,7 +127,7 @@ def ultimate(a):
     return a
 rng = np.random.RandomState(1)
 t0 = (rng.rand(*%r[::-1]) + 0.5).T if %r else rng.rand(*%r) + 0.5; yv0 = rng.rand(%d) + 0.5; y20 = rng.rand(2) + 0.5
-T = {"mg": mg, "np": np, "t": mg.Tensor(t0), "y0": mg.Tensor(1.25), "yv": mg.Tensor(yv0), "y2": mg.Tensor(y20), "k": np.array(0.75), "c1": np.array(2.5), "c2": np.array(1.5)}
+T = {"mg": mg, "np": np, "t": mg.Tensor(t0, constant=%r), "y0": mg.Tensor(1.25), "yv": mg.Tensor(yv0), "y2": mg.Tensor(y20), "k": np.array(0.75), "c1": np.array(2.5), "c2": np.array(1.5)}
 A = {"np": np, "t": t0.copy(order="K"), "y0": np.array(1.25), "yv": yv0.copy(), "y2": y20.copy(), "k": np.array(0.75), "c1": np.array(2.5), "c2": np.array(1.5)}
 LINES = %r
 NAMES = ("t", "v", "w", "u")
@@ -113,7 +141,7 @@ try:
     for i, ln in enumerate(LINES):
         if "Mt" in ln or "Mb" in ln:
             A["Mt"] = T["Mt"] = mask_for(A[tgt(ln)].shape); A["Mb"] = T["Mb"] = mask_for(A[tgt(ln)].shape[-1:])
-        exec(ln.replace("mg.", "np."), A)
+        exec(re.sub(r",\\s*constant=(True|False|None)", "", ln).replace("mg.", "np."), A)
         for n in NAMES:
             if n in A and not isinstance(A[n], np.ndarray): A[n] = np.array(A[n])  # NumPy scalar <-> 0-d tensor
         exec(ln, T)
@@ -137,7 +165,7 @@ except Exception as e:
     bad.append(("raised", type(e).__name__, str(e)[:300]))
 print(bad)
 print('REPRODUCED' if bad else 'NOT-REPRODUCED'); sys.exit(1 if bad else 0)
-''' % (shape, base in vp.F_ORDERED, shape, shape[-1], list(lines))
+''' % (shape, base in vp.F_ORDERED, shape, shape[-1], bool(const_base), list(lines))
 
 
 def run_case(spec, tier):
@@ -146,7 +174,7 @@ def run_case(spec, tier):
     res["programs"] = 0
     for k, lines in enumerate(spec["progs"]):
         res["programs"] += 1
-        r = run_program(mg, spec["base"], lines, res)
+        r = run_program(mg, spec["base"], lines, res, const_base=spec.get("const_base", False))
         if r is None:
             continue
         kind, msg, idx = r
@@ -154,7 +182,7 @@ def run_case(spec, tier):
             res["status"] = common.INCONCLUSIVE
             res["notes"].append("%s: %s" % ("; ".join(lines), msg))
             continue
-        path = common.write_replay(PROP, gradcase._safe("%s_%d" % (spec["name"], k)), replay_source(spec["base"], lines))
+        path = common.write_replay(PROP, gradcase._safe("%s_%d" % (spec["name"], k)), replay_source(spec["base"], lines, spec.get("const_base", False)))
         ok, out = common.run_replay(path)
         if ok:
             res["status"] = common.VIOLATION
